@@ -135,6 +135,10 @@ type c03Case struct {
 	// "json": the rule set goes as text through the real config.ParseRules (decoder + validator) and every rule
 	// through DeepCopy before CreateRule sees it; "" / "struct": config structs built by the driver
 	Via string `json:"via,omitempty"`
+	// > 0: the first Split rules are one rule set (source src), the others a second one (source src2) added by a
+	// second AddRuleSet - on a clone of the non-empty tree, under the one-source-per-node constraint; the second
+	// may be refused, the first then stays loaded
+	Split int `json:"split,omitempty"`
 }
 
 // what the rule set validator accepts, as far as the conditions of C03 are concerned (internal/rules/config:
@@ -517,7 +521,12 @@ func c03Run(c c03Case) (obs c03Obs) {
 			rc = *parsed.Rules[i].DeepCopy()
 		}
 
-		created, err := f.CreateRule("1alpha4", "src", rc)
+		src := "src"
+		if c.Split > 0 && i >= c.Split {
+			src = "src2"
+		}
+
+		created, err := f.CreateRule("1alpha4", src, rc)
 		if err != nil {
 			obs.Load, obs.Err = "create_failed", err.Error()
 
@@ -536,10 +545,21 @@ func c03Run(c c03Case) (obs c03Obs) {
 		rules = append(rules, wr)
 	}
 
-	if err := repo.AddRuleSet("src", rules); err != nil {
+	first := rules
+	if c.Split > 0 && c.Split < len(rules) {
+		first = rules[:c.Split]
+	}
+
+	if err := repo.AddRuleSet("src", first); err != nil {
 		obs.Load, obs.Err = "add_failed", err.Error()
 
 		return obs
+	}
+
+	if len(first) < len(rules) {
+		if err := repo.AddRuleSet("src2", rules[len(first):]); err != nil {
+			obs.Err = "second rule set refused: " + err.Error()
+		}
 	}
 
 	obs.Load = "loaded"
@@ -723,7 +743,12 @@ func c03CoqReq(o c03ReqObs) string {
 func c03Coq(c c03Case, o c03Obs) string {
 	load := map[string]string{"create_failed": "OCreateFailed", "add_failed": "OAddFailed", "loaded": "OLoaded"}[o.Load]
 
-	return vf.CoqApp("cs", vf.CoqListOf(c.Rules, c03CoqRule),
+	split := len(c.Rules)
+	if c.Split > 0 && c.Split < split {
+		split = c.Split
+	}
+
+	return vf.CoqApp("cs", vf.CoqListOf(c.Rules, c03CoqRule), vf.CoqNat(split),
 		vf.CoqListOf(o.Oracle, func(e c03Oracle) string {
 			return vf.CoqApp("oe", vf.CoqBool(e.Host), c03CoqType(e.Type), vf.CoqStr(e.Pat), vf.CoqStr(e.Val), vf.CoqBool(e.Ans))
 		}),
@@ -1143,6 +1168,10 @@ func c03Gen(r *vf.Rand) c03Case {
 		c.Via = "json"
 	}
 
+	if len(c.Rules) >= 2 && r.Chance(40) {
+		c.Split = r.Range(1, len(c.Rules)-1)
+	}
+
 	return c
 }
 
@@ -1279,6 +1308,13 @@ func c03Tags(c c03Case, o c03Obs) ([]string, bool) {
 	tags := map[string]bool{"load:" + o.Load: true}
 	if c.Via == "json" {
 		tags["via:parser+deepcopy"] = true
+	}
+
+	if c.Split > 0 {
+		tags["two-rule-sets"] = true
+		if strings.HasPrefix(o.Err, "second rule set refused") {
+			tags["two-rule-sets:second-refused"] = true
+		}
 	}
 	nontrivial := false
 
